@@ -53,6 +53,10 @@ func (c *c04EvmClient) WaitAndReturnTxReceipt(h common.Hash) (*ethTypes.Receipt,
 	if c.receipt == "E" {
 		return nil, errRPC
 	}
+	if c.receipt == "N" { // a receipt without a block number that still carries a Deposit log of the bridge
+		lg := &ethTypes.Log{Address: c.bridge, Topics: []common.Hash{{1}, {2}}, Data: c.data}
+		return &ethTypes.Receipt{BlockNumber: nil, Logs: []*ethTypes.Log{lg, lg}}, nil
+	}
 	lg := &ethTypes.Log{Address: c.bridge, Topics: []common.Hash{{1}, {2}}, Data: c.data, BlockNumber: bigArg(c.receipt).Uint64()}
 	other := &ethTypes.Log{Address: common.Address{9}, Topics: []common.Hash{{1}, {2}}, Data: c.data}
 	return &ethTypes.Receipt{BlockNumber: bigArg(c.receipt), Logs: []*ethTypes.Log{lg, other, lg}}, nil
@@ -115,19 +119,35 @@ func (c04PropStore) PropStatus(s, d uint8, n uint64) (store.PropStatus, error) {
 
 // ---- Substrate connection for the retry paths
 type c04SubConn struct {
-	fin     string
+	fin     string // <finalized> | E[~<best>] (GetFinalizedHead fails) | F[~<best>] (GetBlock fails); best = unfinalized head
 	h       *big.Int
 	fetched []string
 }
 
+func (c *c04SubConn) finKind() string { return strings.SplitN(c.fin, "~", 2)[0] }
+
+// GetBlockLatest: the best (NOT finalized) block; never needed by code that respects finality.
+func (c *c04SubConn) GetBlockLatest() (*types.SignedBlock, error) {
+	f := strings.SplitN(c.fin, "~", 2)
+	best := "4000000000"
+	if len(f) == 2 {
+		best = f[1]
+	}
+	return &types.SignedBlock{Block: types.Block{Header: types.Header{Number: types.BlockNumber(u64(best))}}}, nil
+}
+func (c *c04SubConn) GetHeaderLatest() (*types.Header, error) {
+	b, _ := c.GetBlockLatest()
+	return &b.Block.Header, nil
+}
+
 func (c *c04SubConn) GetFinalizedHead() (types.Hash, error) {
-	if c.fin == "E" {
+	if c.finKind() == "E" {
 		return types.Hash{}, errRPC
 	}
 	return types.Hash{}, nil
 }
 func (c *c04SubConn) GetBlock(types.Hash) (*types.SignedBlock, error) {
-	if c.fin == "F" {
+	if c.finKind() == "F" {
 		return nil, errRPC
 	}
 	return &types.SignedBlock{Block: types.Block{Header: types.Header{Number: types.BlockNumber(u64(c.fin))}}}, nil
@@ -309,6 +329,16 @@ func genC04(g *G) {
 			}
 		}
 	}
+	// BTC: the node reports 0..3 confirmations for the best block it hands out (the tip moved on between
+	// GetBestBlockHash and GetBlockVerboseTx); heights around the boundary head - block == conf
+	for conf := int64(1); conf <= 3; conf++ {
+		for c := 0; c <= 3; c++ {
+			for d := int64(-2); d <= 2; d++ {
+				b := int64(5)
+				g.Emit("scan", "btc", itoa64(conf), "1", "1", itoa64(b), itoa64(b+conf+d)+"~"+itoa(c)+":n:s;"+itoa64(b+conf+d+1)+"~"+itoa(c)+":n:s")
+			}
+		}
+	}
 	// retry guards: exhaustive grid
 	for conf := int64(0); conf <= 4; conf++ {
 		for h := int64(0); h <= 9; h++ {
@@ -322,6 +352,18 @@ func genC04(g *G) {
 					g.Emit("subretryevent", L, H)
 				}
 			}
+		}
+	}
+	// receipts without a block number; finalized-head RPC errors while the best (unfinalized) head is above the height
+	for _, L := range []string{"0", "5", "100", "E"} {
+		for _, C := range []string{"0", "2"} {
+			g.Emit("evmretrytx", L, "N", C)
+		}
+	}
+	for _, e := range []string{"E", "F"} {
+		for _, best := range []string{"3", "5", "6", "7", "100"} {
+			g.Emit("subretrymsg", e+"~"+best, "5")
+			g.Emit("subretryevent", e+"~"+best, "5")
 		}
 	}
 	for _, e := range []string{"E", "F"} {
@@ -434,6 +476,9 @@ func genC04(g *G) {
 				head += int64(g.Intn(int(k) + 2))
 			}
 			hs := itoa64(head)
+			if kind == "btc" && g.Intn(3) == 0 {
+				hs += "~" + itoa(g.Intn(4))
+			}
 			if g.Intn(12) == 0 {
 				hs = g.Pick([]string{"E", "F"})
 			}
